@@ -10,7 +10,7 @@ import sys
 
 import numpy as np
 
-from common import (Outcome, Machinery, run_tlc, need_ok, run_cases,
+from common import (unique, Outcome, Machinery, run_tlc, need_ok, run_cases,
                     validate_traces, settle, seed, main_wrap)
 
 PROP = 'C20'
@@ -65,7 +65,8 @@ def run(tier):
     out.add_tlc('ArlPack_MC one-step bound (expected to be violated: known '
                 'finding C20_K1)', r2, 'violated: %s' % r2.violated)
     out.cov['model_bound_violated'] = bool(r2.violated)
-    fields = [p['f'] for p in r.prints if isinstance(p, dict) and 'f' in p]
+    fields = unique([p['f'] for p in r.prints
+                     if isinstance(p, dict) and 'f' in p])
     if not fields:
         raise Machinery('ArlPack_MC emitted nothing')
     # random fields beyond the model: larger shapes, other exponents, constants
